@@ -61,6 +61,8 @@ type World struct {
 	ids     map[int]int64
 	hands   map[int]*handState
 	allHands []*handState
+	nwait       int
+	waitCancels []context.CancelFunc
 	hmu     sync.Mutex
 }
 
@@ -378,6 +380,7 @@ type rpcState struct {
 	tcOpt    bool
 	started  bool
 	order    int64 // stream id observed on the tap for this rpc
+	picked   int   // tunnel that carries the rpc (from the stream's context)
 	viaMulti string
 }
 
